@@ -271,6 +271,37 @@ namespace c09
         static bool is_container() { return false; }
     };
 
+    // plain aggregates of integers without padding whose wire image is NOT their memory image: reflect() lists the members in
+    // another order than they are declared (S6), or leaves a member out that is not part of the message (S7)
+    struct S6
+    {
+        uint16_t version;
+        uint16_t flags;
+        uint32_t length;
+        template <class R> void reflect(R &r) { r & length; r & version; r & flags; }
+    };
+    template <> struct Ref<S6>
+    {
+        static S6 gen(kit::Rng &r, GenCfg &c) { S6 s{}; s.version = Ref<uint16_t>::gen(r, c); s.flags = Ref<uint16_t>::gen(r, c); s.length = Ref<uint32_t>::gen(r, c); return s; }
+        static void enc(const S6 &v, std::string &o) { Ref<uint32_t>::enc(v.length, o); Ref<uint16_t>::enc(v.version, o); Ref<uint16_t>::enc(v.flags, o); }
+        static bool eq(const S6 &a, const S6 &b) { return a.version == b.version && a.flags == b.flags && a.length == b.length; }
+        static bool is_container() { return false; }
+        static std::string show(const S6 &v) { return "S6{" + std::to_string(v.version) + "," + std::to_string(v.flags) + "," + std::to_string(v.length) + "}"; }
+    };
+    struct S7
+    {
+        int32_t value;
+        int32_t hits; // bookkeeping of the running program, not on the wire
+        template <class R> void reflect(R &r) { r & value; }
+    };
+    template <> struct Ref<S7>
+    {
+        static S7 gen(kit::Rng &r, GenCfg &c) { S7 s{}; s.value = Ref<int32_t>::gen(r, c); s.hits = Ref<int32_t>::gen(r, c); return s; }
+        static void enc(const S7 &v, std::string &o) { Ref<int32_t>::enc(v.value, o); }
+        static bool eq(const S7 &a, const S7 &b) { return a.value == b.value; }
+        static bool is_container() { return false; }
+        static std::string show(const S7 &v) { return "S7{" + std::to_string(v.value) + "}"; }
+    };
     struct P1
     {
         static const char *apiname() { return "archive"; }
@@ -476,6 +507,10 @@ namespace c09
         T1(long double, 0, false);
         T1(M1, 1, false);
         T1(std::vector<M1>, 2, true);
+        T1(S6, 0, false);
+        T1(std::vector<S6>, 1, true);
+        T1(S7, 0, false);
+        T1(std::vector<S7>, 1, true);
 #undef T1
         return a;
     }
